@@ -1,4 +1,5 @@
 import KV.Proofs.WalSearch
+import KV.Proofs.WalFlip
 import KV.Base.Crc32c
 /-! # C15 — the consensus WAL returns exactly what was written and detects every corruption
 
@@ -9,7 +10,16 @@ conclusion is `claim ∨ Collision c` with `Collision c = ∃ a b, a ≠ b ∧ c
 colliding pair is constructed from the input). `k : RKind` ranges over the three reader behaviours
 (`group` = autofile.GroupReader, `file` = *os.File / bytes.Buffer, `bytes` = bytes.Reader).
 `Valid c d` = non-empty, within the limit, accepted by the payload parser.
-`decodeAll` = "call Decode until it fails": the payloads returned, then `eof` or `corrupt`. -/
+`decodeAll` = "call Decode until it fails": the payloads returned, then `eof` or `corrupt`.
+
+The last section instantiates the checksum with CRC-32C proper (`c.crc = crc32c`, the executable
+table-driven function of `KV/Base/Crc32c.lean`, which is what the driver's configuration uses): every
+single-bit error and every burst error of ≤ 32 bits changes the checksum (`single_bit_flip`,
+`crc32c_detects_burst32`), so a one-bit flip anywhere in a written log is reported as corruption at
+the damaged record with NO collision disjunct (`bit_flip_detected`), with one explicit exception:
+a flip in a length field whose new payload window has the old checksum (`LenFlipAccepted`; the
+checksum does not cover the length field; `len_flip_counterexample`). Multi-bit edits other than
+≤ 32-bit bursts keep the `Collision` disjunct (`edit_detected`, `truncate_prefix`). -/
 namespace KV.Wal
 
 /-! ## writer side -/
@@ -172,7 +182,10 @@ theorem truncate_prefix_group (c : Cfg) (ds : List Bytes) (t : Nat) (hmax : c.ma
 /-- **edit_detected.** After intact records `pre`, a record whose checksum field is that of `d` but
 whose length field was changed, or whose payload was replaced by a different one of the same
 length, makes the reader stop with `corrupt` right there (the intact records before it are still
-returned) — or the checksum collides. Whatever follows (`post`) is irrelevant. -/
+returned) — or the checksum collides. Whatever follows (`post`) is irrelevant.
+For CRC-32C proper the disjunct is gone for one-bit flips and ≤ 32-bit bursts in the payload
+(`bit_flip_at_record`, `burst32_detected` below); for arbitrary multi-bit edits it has to stay (any
+32-bit checksum collides on some pair of payloads longer than 4 bytes). -/
 theorem edit_detected (c : Cfg) (k : RKind) (pre : List Bytes) (d lenB tail : Bytes)
     (hmax : c.max < 4294967296) (hv : ∀ x ∈ pre, Valid c x) (hd : d.length < 4294967296)
     (hlenB : lenB.length = 4)
@@ -460,14 +473,259 @@ def cfgC (tab : List (Bytes × PKind)) : Cfg where
   let r := decodeAll c .file ((frames c [[1, 2, 3], [9], [1, 2, 3]]).take t)
   r.1 == ([[1, 2, 3], [9], [1, 2, 3]] : List Bytes).take r.1.length
 
-/-! ## extension (not proved) -/
+/-! ## CRC-32C proper: what the real checksum adds
 
-/-- [extension, NOT proved] for CRC-32C proper every single-bit error changes the checksum
-(linearity of the CRC: the syndrome of a one-bit error is `x^k mod P ≠ 0`). With it the
-`Collision` disjunct of `edit_detected` disappears for one-bit payload errors. Only tested: the
-harness flips every bit of every small log (both tiers) through the real decoder and the model. -/
+Everything above holds for an arbitrary checksum and therefore carries a `Collision` disjunct
+wherever detection rests on the checksum. For the checksum the code uses — CRC-32C, table driven,
+exactly the executable `crc32c` the driver and the differential run — the disjunct disappears for
+the error classes a CRC detects by construction (`KV/Proofs/Crc32cLinear.lean`: the register update
+is GF(2)-linear in (register, data) and one shift step is injective because bit 31 of the reflected
+polynomial 0x82F63B78 is set; hence the syndrome of an error confined to ≤ 32 consecutive bits is
+`shift^m (window) ≠ 0`). -/
+
+/-- the table-driven CRC-32C (what is executed) is the textbook bit-serial CRC, for EVERY input
+(the 256 table entries are the bit-serial image of their index by definition; the byte update
+identity `T[(c ^ b) & 0xFF] ^ (c >> 8) = shift^8 (c ^ b)` is proved from linearity) -/
+theorem crc32c_table_eq_bitwise (d : Bytes) : crc32c d = crc32cBitwise d := crc32c_eq_bitwise d
+
+/-- … and the bit-serial CRC of the bit stream (each byte least significant bit first) -/
+theorem crc32c_eq_bit_stream (d : Bytes) : crc32c d = crc32cBits (bitsLE d) := crc32c_eq_bits d
+
+/-- for CRC-32C proper every single-bit error changes the checksum -/
 def single_bit_flip_Statement : Prop :=
   ∀ (d : Bytes) (i : Nat), i < 8 * d.length → crc32c (flipBit d i) ≠ crc32c d
+
+/-- **single_bit_flip.** Proved (was only stated and tested before): for every byte string and
+every bit position the flipped string has a different CRC-32C. -/
+theorem single_bit_flip : single_bit_flip_Statement := fun d i h => crc32c_flipBit_ne d i h
+
+/-- **burst errors of at most 32 bits change the checksum**, at any bit alignment: two byte strings
+whose bit streams (in the order the CRC consumes them: byte by byte, least significant bit first)
+differ only inside a window of at most 32 consecutive bits have different CRC-32C values -/
+theorem crc32c_detects_burst32 (d d' : Bytes) (x u v y : List Bool) (hd : bitsLE d = x ++ u ++ y)
+    (hd' : bitsLE d' = x ++ v ++ y) (hl : u.length = v.length) (h32 : u.length ≤ 32) (hne : d ≠ d') :
+    crc32c d ≠ crc32c d' :=
+  crc32c_burst32 d d' x u v y hd hd' hl h32 hne
+
+/-- byte-aligned form: replacing up to four consecutive bytes by different ones changes the CRC -/
+theorem crc32c_detects_burst4 (p w w' q : Bytes) (hl : w.length = w'.length) (h4 : w.length ≤ 4)
+    (hne : w ≠ w') : crc32c (p ++ w ++ q) ≠ crc32c (p ++ w' ++ q) :=
+  crc32c_burst4 p w w' q hl h4 hne
+
+/-- **burst32_detected.** After intact records, a record whose payload was hit by a burst error of
+at most 32 bits (its checksum and length fields intact; anything may follow) ends the read with
+`corrupt` right there — unconditionally: no `Collision` disjunct. Every reader kind. -/
+theorem burst32_detected (c : Cfg) (k : RKind) (pre : List Bytes) (d d' tail : Bytes)
+    (x u v y : List Bool) (hcrc : c.crc = crc32c) (hmax : c.max < 4294967296)
+    (hv : ∀ m ∈ pre, Valid c m) (hd : d.length < 4294967296)
+    (hb : bitsLE d = x ++ u ++ y) (hb' : bitsLE d' = x ++ v ++ y) (hl : u.length = v.length)
+    (h32 : u.length ≤ 32) (hne : d' ≠ d) :
+    decodeAll c k (frames c pre ++ (be32 (c.crc d).toNat ++ be32 d.length ++ (d' ++ tail))) =
+      (pre, .corrupt) := by
+  have hlen : d'.length = d.length := by
+    have h1 := bitsLE_length d
+    have h2 := bitsLE_length d'
+    rw [hb] at h1; rw [hb'] at h2
+    simp only [List.length_append] at h1 h2
+    omega
+  apply decodeAll_payload_edit c k pre d d' tail hmax hv hd hlen
+  rw [hcrc]
+  exact crc32c_burst32 d' d x v u y hb' hb hl.symm (by omega) hne
+
+/-- the same for up to four consecutive damaged payload bytes -/
+theorem burst4_detected (c : Cfg) (k : RKind) (pre : List Bytes) (p w w' q tail : Bytes)
+    (hcrc : c.crc = crc32c) (hmax : c.max < 4294967296) (hv : ∀ m ∈ pre, Valid c m)
+    (hd : (p ++ w ++ q).length < 4294967296) (hl : w'.length = w.length) (h4 : w.length ≤ 4)
+    (hne : w' ≠ w) :
+    decodeAll c k (frames c pre ++ (be32 (c.crc (p ++ w ++ q)).toNat ++ be32 (p ++ w ++ q).length ++
+      ((p ++ w' ++ q) ++ tail))) = (pre, .corrupt) := by
+  apply decodeAll_payload_edit c k pre _ _ tail hmax hv hd
+  · simp only [List.length_append]; omega
+  · rw [hcrc]; exact crc32c_burst4 p w' w q hl (by omega) hne
+
+/-- **bit_flip_at_record.** A written log (`pre`, then `d`, then `post`, all valid) with ONE bit
+flipped at offset `o` inside the record of `d` — in its checksum field (`o < 32`), its length field
+(`32 ≤ o < 64`) or its payload (`64 ≤ o`): the reader returns the intact records before it and then
+reports corruption at that record. No `Collision` disjunct. The single conditional case is a flip in
+the LENGTH field (which the checksum does not cover) whose new length is within the limit and
+selects a payload window — a proper prefix of `d`, or `d` extended by the following bytes — that
+has the checksum of `d` and is accepted by the payload parser (`LenFlipAccepted`: the decoder then
+returns that other message; `len_flip_counterexample` shows it happens). Every reader kind. -/
+theorem bit_flip_at_record (c : Cfg) (k : RKind) (pre : List Bytes) (d : Bytes) (post : List Bytes)
+    (o : Nat) (hcrc : c.crc = crc32c) (hmax : c.max < 4294967296)
+    (hv : ∀ m ∈ pre ++ d :: post, Valid c m) (ho : o < 8 * (frame c d).length) :
+    decodeAll c k (flipBit (frames c (pre ++ d :: post)) (8 * (frames c pre).length + o)) =
+        (pre, .corrupt) ∨
+      (32 ≤ o ∧ o < 64 ∧ LenFlipAccepted c k d (frames c post) (o - 32)) := by
+  have hvp : ∀ m ∈ pre, Valid c m := fun m hm => hv m (by simp [hm])
+  have hvd : Valid c d := hv d (by simp)
+  rw [flipBit_frames c pre d post o ho, decodeAll_frames c k pre _ hmax hvp]
+  rcases decode_flipped_record c k d (frames c post) o hcrc hmax hvd ho with ⟨r, h⟩ | h
+  · left; rw [decodeAll_corrupt c k _ r h]; simp
+  · exact Or.inr h
+
+/-- **bit_flip_detected.** One flipped bit ANYWHERE in a written log: bit `i` lies in the record of
+some `d` at offset `o`, and reading returns exactly the records before it, then `corrupt` — never
+a different message, never end-of-log — except for the length-field case of `bit_flip_at_record`. -/
+theorem bit_flip_detected (c : Cfg) (k : RKind) (ds : List Bytes) (i : Nat) (hcrc : c.crc = crc32c)
+    (hmax : c.max < 4294967296) (hv : ∀ m ∈ ds, Valid c m) (hi : i < 8 * (frames c ds).length) :
+    ∃ pre d post o, ds = pre ++ d :: post ∧ i = 8 * (frames c pre).length + o ∧
+      o < 8 * (frame c d).length ∧
+      (decodeAll c k (flipBit (frames c ds) i) = (pre, .corrupt) ∨
+        (32 ≤ o ∧ o < 64 ∧ LenFlipAccepted c k d (frames c post) (o - 32))) := by
+  obtain ⟨pre, d, post, o, e1, e2, e3⟩ := frames_bit_split c ds i hi
+  refine ⟨pre, d, post, o, e1, e2, e3, ?_⟩
+  subst e1; subst e2
+  exact bit_flip_at_record c k pre d post o hcrc hmax hv e3
+
+/-- the same through a group reader over ANY division of the damaged log into files (rotation):
+what consensus replay reads -/
+theorem bit_flip_detected_group (c : Cfg) (ds : List Bytes) (i : Nat) (files : List Bytes)
+    (hfiles : files.flatten = flipBit (frames c ds) i) (hcrc : c.crc = crc32c)
+    (hmax : c.max < 4294967296) (hv : ∀ m ∈ ds, Valid c m) (hi : i < 8 * (frames c ds).length) :
+    ∃ pre d post o, ds = pre ++ d :: post ∧ i = 8 * (frames c pre).length + o ∧
+      o < 8 * (frame c d).length ∧
+      (decodeAllG c (openAt files 0) = (pre, .corrupt) ∨
+        (32 ≤ o ∧ o < 64 ∧ LenFlipAccepted c .group d (frames c post) (o - 32))) := by
+  rw [decodeAllG_flat, openAt_flat, List.drop_zero, hfiles]
+  exact bit_flip_detected c .group ds i hcrc hmax hv hi
+
+/-- a flip in the checksum field or in the payload is detected unconditionally … -/
+theorem bit_flip_crc_or_payload_detected (c : Cfg) (k : RKind) (pre : List Bytes) (d : Bytes)
+    (post : List Bytes) (o : Nat) (hcrc : c.crc = crc32c) (hmax : c.max < 4294967296)
+    (hv : ∀ m ∈ pre ++ d :: post, Valid c m) (ho : o < 8 * (frame c d).length)
+    (hfield : o < 32 ∨ 64 ≤ o) :
+    decodeAll c k (flipBit (frames c (pre ++ d :: post)) (8 * (frames c pre).length + o)) =
+      (pre, .corrupt) := by
+  rcases bit_flip_at_record c k pre d post o hcrc hmax hv ho with h | ⟨h1, h2, _⟩
+  · exact h
+  · omega
+
+/-- … and so is a flip in the length field whenever the new length exceeds the size limit (every
+flip of a high bit: `maxMsgSizeBytes` < 2^21), or, through the group reader, runs past the end of
+the log, or is 0 while the parser rejects the empty payload -/
+theorem bit_flip_len_detected (c : Cfg) (k : RKind) (pre : List Bytes) (d : Bytes)
+    (post : List Bytes) (o : Nat) (hcrc : c.crc = crc32c) (hmax : c.max < 4294967296)
+    (hv : ∀ m ∈ pre ++ d :: post, Valid c m) (h1 : 32 ≤ o) (h2 : o < 64)
+    (hbig : c.max < be32Val (flipBit (be32 d.length) (o - 32)) ∨
+      (k = .group ∧ (d ++ frames c post).length < be32Val (flipBit (be32 d.length) (o - 32))) ∨
+      (be32Val (flipBit (be32 d.length) (o - 32)) = 0 ∧ c.parse [] = none)) :
+    decodeAll c k (flipBit (frames c (pre ++ d :: post)) (8 * (frames c pre).length + o)) =
+      (pre, .corrupt) := by
+  have ho : o < 8 * (frame c d).length := by rw [frame_length]; omega
+  rcases bit_flip_at_record c k pre d post o hcrc hmax hv ho with
+    h | ⟨_, _, w, r, hdec, hw, _, hwm, _, _, hwp⟩
+  · exact h
+  · exfalso
+    rcases hbig with hb | ⟨hk, hb⟩ | ⟨hz, hp⟩
+    · omega
+    · subst hk
+      have := decode_group_len c _ w r hdec
+      simp only [List.length_append, be32_length, flipBit_length] at this hb
+      omega
+    · rw [hz] at hw
+      rw [List.eq_nil_of_length_eq_zero hw] at hwp
+      exact hwp hp
+
+/-- **repair after a bit flip.** `repairWalFile` on a written log with one flipped bit writes exactly
+the records before the damaged one — nothing of the damaged record, nothing after it — under the
+hypotheses of `repair_longest_prefix` and with the length-field exception of `bit_flip_at_record`. -/
+theorem repair_after_bit_flip (c : Cfg) (ds : List Bytes) (i : Nat) (hcrc : c.crc = crc32c)
+    (hmax : c.max < 4294967296) (hcanon : ∀ p, c.parse p ≠ none → c.reser p = p)
+    (hempty : c.parse [] = none) (hv : ∀ m ∈ ds, Valid c m) (hi : i < 8 * (frames c ds).length) :
+    ∃ pre d post o, ds = pre ++ d :: post ∧ i = 8 * (frames c pre).length + o ∧
+      o < 8 * (frame c d).length ∧
+      (repair c (flipBit (frames c ds) i) = (frames c pre, true) ∨
+        (32 ≤ o ∧ o < 64 ∧ LenFlipAccepted c .file d (frames c post) (o - 32))) := by
+  obtain ⟨pre, d, post, o, e1, e2, e3, h⟩ := bit_flip_detected c .file ds i hcrc hmax hv hi
+  refine ⟨pre, d, post, o, e1, e2, e3, ?_⟩
+  rcases h with h | h
+  · left
+    rw [(repair_longest_prefix c .file _ hmax hcanon hempty).1, h]
+  · exact Or.inr h
+
+/-- the length-field exception is real, with the real checksum: `ff ff ff ff` and `ff ff ff ff 00`
+have the same CRC-32C (the register is 0 after the first four bytes and a zero byte keeps it 0), and
+their lengths 4 and 5 differ in one bit. With a payload parser that accepts both, flipping the lowest
+bit of the length field of the record of `ff ff ff ff 00` makes the decoder return the DIFFERENT
+message `ff ff ff ff` (then end-of-log through the group reader, `corrupt` through a file). The
+framing protects the payload, not the length field; whether two such payloads both parse is a
+question about protobuf, outside this model. -/
+theorem len_flip_counterexample :
+    decodeAll (cfgC [([0xFF, 0xFF, 0xFF, 0xFF], .other), ([0xFF, 0xFF, 0xFF, 0xFF, 0], .other)]) .group
+      (flipBit (frames (cfgC []) [[0xFF, 0xFF, 0xFF, 0xFF, 0]]) 63) = ([[0xFF, 0xFF, 0xFF, 0xFF]], .eof) ∧
+    decodeAll (cfgC [([0xFF, 0xFF, 0xFF, 0xFF], .other), ([0xFF, 0xFF, 0xFF, 0xFF, 0], .other)]) .file
+      (flipBit (frames (cfgC []) [[0xFF, 0xFF, 0xFF, 0xFF, 0]]) 63) = ([[0xFF, 0xFF, 0xFF, 0xFF]], .corrupt) := by
+  constructor
+  · have h1 := Res.of_asMsg (d := [0xFF, 0xFF, 0xFF, 0xFF]) (rest := [0])
+      (r := decode (cfgC [([0xFF, 0xFF, 0xFF, 0xFF], .other), ([0xFF, 0xFF, 0xFF, 0xFF, 0], .other)]) .group
+        (flipBit (frames (cfgC []) [[0xFF, 0xFF, 0xFF, 0xFF, 0]]) 63)) (by decide +kernel)
+    have h2 := Res.of_isEof
+      (r := decode (cfgC [([0xFF, 0xFF, 0xFF, 0xFF], .other), ([0xFF, 0xFF, 0xFF, 0xFF, 0], .other)]) .group [0])
+      (by decide +kernel)
+    rw [decodeAll_msg _ _ _ _ _ h1, decodeAll_eof _ _ _ h2]
+  · have h1 := Res.of_asMsg (d := [0xFF, 0xFF, 0xFF, 0xFF]) (rest := [0])
+      (r := decode (cfgC [([0xFF, 0xFF, 0xFF, 0xFF], .other), ([0xFF, 0xFF, 0xFF, 0xFF, 0], .other)]) .file
+        (flipBit (frames (cfgC []) [[0xFF, 0xFF, 0xFF, 0xFF, 0]]) 63)) (by decide +kernel)
+    obtain ⟨x, h2⟩ := Res.of_isCorrupt
+      (r := decode (cfgC [([0xFF, 0xFF, 0xFF, 0xFF], .other), ([0xFF, 0xFF, 0xFF, 0xFF, 0], .other)]) .file [0])
+      (by decide +kernel)
+    rw [decodeAll_msg _ _ _ _ _ h1, decodeAll_corrupt _ _ _ x h2]
+
+/-- … and there the exceptional disjunct of `bit_flip_at_record` is what holds (so it cannot be
+dropped from the theorem) -/
+example : LenFlipAccepted
+    (cfgC [([0xFF, 0xFF, 0xFF, 0xFF], .other), ([0xFF, 0xFF, 0xFF, 0xFF, 0], .other)]) .group
+    [0xFF, 0xFF, 0xFF, 0xFF, 0] [] 31 :=
+  ⟨[0xFF, 0xFF, 0xFF, 0xFF], [0], Res.of_asMsg (by decide +kernel), by decide, by decide, by decide,
+    by decide, by decide +kernel, by decide⟩
+
+/-! ### non-vacuity of the CRC-32C theorems -/
+
+/-- real checksum, real size limit, a parser accepting two payloads -/
+def cfgT : Cfg := cfgC [([1, 2, 3], .other), ([9], .endHeight 5)]
+
+theorem cfgT_valid : ∀ m ∈ ([[1, 2, 3]] ++ [9] :: [[1, 2, 3]] : List Bytes), Valid cfgT m := by
+  intro m hm
+  simp at hm
+  rcases hm with h | h | h <;> subst h <;> exact ⟨by decide, by decide, by decide⟩
+
+/-- the hypotheses of `bit_flip_at_record` are satisfiable: a flip in the checksum field of the
+second of three records, through the group reader -/
+example : decodeAll cfgT .group (flipBit (frames cfgT ([[1, 2, 3]] ++ [9] :: [[1, 2, 3]]))
+    (8 * (frames cfgT [[1, 2, 3]]).length + 12)) = ([[1, 2, 3]], .corrupt) :=
+  bit_flip_crc_or_payload_detected cfgT .group [[1, 2, 3]] [9] [[1, 2, 3]] 12 rfl (by decide)
+    cfgT_valid (by rw [frame_length]; decide) (Or.inl (by omega))
+
+/-- … a flip in the payload of the first record, through a file -/
+example : decodeAll cfgT .file (flipBit (frames cfgT ([] ++ [1, 2, 3] :: [[9], [1, 2, 3]]))
+    (8 * (frames cfgT []).length + 70)) = ([], .corrupt) :=
+  bit_flip_crc_or_payload_detected cfgT .file [] [1, 2, 3] [[9], [1, 2, 3]] 70 rfl (by decide)
+    (by
+      intro m hm
+      simp at hm
+      rcases hm with h | h | h <;> subst h <;> exact ⟨by decide, by decide, by decide⟩)
+    (by rw [frame_length]; decide) (Or.inr (by omega))
+
+/-- … a flip of the top bit of a length field: the new length 2^31 + 1 is above the limit -/
+example : decodeAll cfgT .group (flipBit (frames cfgT ([[1, 2, 3]] ++ [9] :: [[1, 2, 3]]))
+    (8 * (frames cfgT [[1, 2, 3]]).length + 32)) = ([[1, 2, 3]], .corrupt) :=
+  bit_flip_len_detected cfgT .group [[1, 2, 3]] [9] [[1, 2, 3]] 32 rfl (by decide)
+    cfgT_valid (by omega) (by omega) (Or.inl (by decide))
+
+/-- `single_bit_flip` and the burst theorems on concrete data -/
+example : crc32c (flipBit [1, 2, 3] 5) ≠ crc32c [1, 2, 3] := single_bit_flip [1, 2, 3] 5 (by decide)
+
+example : crc32c ([7] ++ [1, 2, 3, 4] ++ [8, 9]) ≠ crc32c ([7] ++ [0xFF, 2, 3, 0] ++ [8, 9]) :=
+  crc32c_detects_burst4 [7] [1, 2, 3, 4] [0xFF, 2, 3, 0] [8, 9] rfl (by decide) (by decide)
+
+/-- an unaligned burst: bits 5…7 of byte 0 and bit 0 of byte 1 (a 4-bit window across a byte
+boundary) -/
+example : crc32c [0x00, 0x00, 0x55] ≠ crc32c [0xA0, 0x01, 0x55] :=
+  crc32c_detects_burst32 [0x00, 0x00, 0x55] [0xA0, 0x01, 0x55]
+    [false, false, false, false, false] [false, false, false, false] [true, false, true, true]
+    ([false, false, false, false, false, false, false] ++ bitsLE [0x55])
+    (by decide) (by decide) rfl (by decide) (by decide)
 
 -- evaluation on a sample (not a proof)
 #guard (List.range (8 * 12)).all fun i =>
